@@ -86,9 +86,15 @@ class PairWorld:
         assert r.ok
         r1, r2, S = [from_top_u(x) for x in r.out]
         st = vm.query(self.pair, "getState")
+        fe = vm.query(self.pair, "getTotalFeePercent")
+        sf = vm.query(self.pair, "getSpecialFee")
+        fs = vm.query(self.pair, "getFeeState")
         o = dict(r1=r1, r2=r2, S=S, b1=vm.bal(self.pair, T[1]), b2=vm.bal(self.pair, T[2]),
                  lp={a: vm.bal(self.addr[a], T[0]) for a in self.lp_accounts},
-                 state=from_top_u(st.out[0]) if st.ok and st.out else 0)
+                 lp_other=sum(vm.bal(a, T[0]) for a in (self.pair2, self.coll, self.addr[60], self.addr[61], self.addr[62])),
+                 state=from_top_u(st.out[0]) if st.ok and st.out else 0,
+                 fee=from_top_u(fe.out[0]) if fe.out else 0, sfee=from_top_u(sf.out[0]) if sf.out else 0,
+                 fee_on=bool(fs.out and fs.out[0]))
         return o
 
     def totals(self):
@@ -110,6 +116,8 @@ class PairWorld:
                 vm.setbal(A[caller], T[t], 0, 10 ** 300)
         pre_tot = self.totals()
         pre_c = {t: vm.bal(A[caller], T[t]) for t in (1, 2)} if caller is not None else None
+        others = [u for u in list(range(1, NUSERS + 1)) + [WL, OWNER, 60, 61, 62] if u != caller]
+        pre_oth = {(u, t): vm.bal(A[u], T[t]) for u in others for t in (1, 2, 3)}
         pre_coll = {t: vm.bal(self.coll, T[t]) for t in (1, 2)}
         pre_p2 = {t: vm.bal(self.pair2, T[t]) for t in (1, 3)}
         pre_dig = vm.digest([self.pair])
@@ -192,6 +200,7 @@ class PairWorld:
         if caller is not None:
             o["dcaller"] = {t: vm.bal(A[caller], T[t]) - pre_c[t] for t in (1, 2)}
         o["dcoll"] = {t: vm.bal(self.coll, T[t]) - pre_coll[t] for t in (1, 2)}
+        o["dothers"] = {f"{u}:{t}": vm.bal(A[u], T[t]) - v for (u, t), v in pre_oth.items() if vm.bal(A[u], T[t]) != v}
         o["dp2"] = {t: vm.bal(self.pair2, T[t]) - pre_p2[t] for t in (1, 3)}
         q = vm.query(self.pair2, "getReservesAndTotalSupply")
         o["q1"], o["q2"] = from_top_u(q.out[0]), from_top_u(q.out[1])
@@ -208,7 +217,7 @@ class PairWorld:
             elif k == "SetCollector": sh['coll'] = op[2]
             elif k == "Trust": sh['trusted'] = True
         o["pre"] = self.last
-        self.last = {k_: o[k_] for k_ in ("r1", "r2", "S", "b1", "b2", "lp", "state")}
+        self.last = {k_: o[k_] for k_ in ("r1", "r2", "S", "b1", "b2", "lp", "lp_other", "state", "fee", "sfee", "fee_on")}
         return o
 
 
